@@ -11,6 +11,7 @@ Reading guide:
     paths of different collections neither coincide nor nest.
 -/
 import Flax.Proofs.BridgeExample
+import Flax.Proofs.BridgeHier
 
 namespace Flax.C18
 open Flax.Bridge
@@ -338,6 +339,49 @@ theorem tolinen_exposes_by_type (r : Reg) (isMutable : String → Bool) (S : For
     exact ⟨hm, v, hl, hn, hx⟩
   · rintro ⟨hm, v, hl, hn, hx⟩
     exact ⟨c, q, v, rfl, hl, hn, hx, hm⟩
+
+/-- **exact type, not a base**: `_update_variables` sorts the state's Variable types most-derived-first
+(`sort_variable_types`) and splits by first match; over every class hierarchy in which a proper base
+class has a strictly shorter MRO, every Variable falls into the bucket of its *own* type — so a Variable of
+a sub-class `S` of `T` is exposed under the collection named after `S` and never under `T`'s, whichever of
+the two collections is mutable — and the bucketed `_update_variables` is `encodeState`, to which
+`tolinen_exposes_by_type` applies. -/
+theorem tolinen_exposes_by_exact_type (h : Hier) (hh : HierOk h) (r : Reg) (isMutable : String → Bool)
+    (S : Forest (NVar α)) :
+    (∀ q v, leafAtF S q = some v →
+      bucketOf h (sortVariableTypes h (typesOf S)) v.vtype = some v.vtype) ∧
+    encodeStateTyped h r isMutable S = encodeState r isMutable S := by
+  refine ⟨?_, encodeStateTyped_eq h hh r isMutable S⟩
+  intro q v hl
+  exact bucket_exact h hh _ _ (mem_typesOf S (q, v) (flattenF_complete S q v hl))
+
+/-- a hierarchy `BatchStat ⊃ SubStat ⊃ SubSubStat` satisfies the hypothesis; sorted ascending instead
+(the order a careless edit would produce) the sub-class Variable lands in the base bucket -/
+example :
+    let bs := VType.user 1 "BatchStat"; let s := VType.user 20 "SubStat"; let ss := VType.user 21 "SubSubStat"
+    let h : Hier := ⟨fun t => if t = ss then [ss, s, bs] else if t = s then [s, bs] else [t]⟩
+    HierOk h ∧ bucketOf h (sortVariableTypes h [bs, ss, s]) ss = some ss ∧ bucketOf h [bs, s, ss] ss = some bs := by
+  refine ⟨⟨?_, ?_⟩, by decide, by decide⟩
+  · intro t; simp only; split
+    · simp [*]
+    · split <;> simp [*]
+  · intro a b hb hne
+    simp only [Hier.count] at *
+    split at hb
+    · rename_i h1; subst h1
+      simp only [List.mem_cons, List.not_mem_nil, or_false] at hb
+      rcases hb with rfl | rfl | rfl
+      · exact absurd rfl hne
+      · decide
+      · decide
+    · split at hb
+      · rename_i h1 h2; subst h2
+        simp only [List.mem_cons, List.not_mem_nil, or_false] at hb
+        rcases hb with rfl | rfl
+        · exact absurd rfl hne
+        · decide
+      · simp only [List.mem_cons, List.not_mem_nil, or_false] at hb
+        exact absurd hb hne
 
 /-- **state → Linen collections → state is the identity**: the state `ToLinen`'s apply path rebuilds from
 the collections `_update_variables` wrote (all collections mutable) has the Variables of the original
